@@ -36,7 +36,7 @@ func init() {
 		Doc: "no store goes through a pointer to a slice element (p = &S[i]) after S may have been re-allocated by S = append(S, …) without p being re-derived: such a write lands in the old backing array and is lost.",
 		Run: runSTALEPTR})
 	Register(&Rule{ID: "ITERDONE", Props: []string{"C10", "C01", "C16"}, Min: 2,
-		Doc: "where an API function recognises a stop sentinel (ErrIterDone) with ==, every function between the user callback and that comparison returns the callback's error itself, never a wrapped copy.",
+		Doc: "where an API function recognises a stop sentinel (ErrIterDone) with ==, every function between the user callback and that comparison returns the callback's error itself, never a wrapped copy; where it uses errors.Is, a level may also wrap it, but only so that Unwrap still reaches it (fmt.Errorf with %w on the error, errors.Join) — never re-formatted with %v/%s or errors.New(err.Error()).",
 		Run: runITERDONE})
 	Register(&Rule{ID: "FINDOPTS", Props: []string{"C01", "C10"}, Min: 4,
 		Doc: "all point operations agree on how a search is parameterised: every findOptions is built with targetLayer = min(keyLayer(key, branchFactor), height) and currentHeight = height of the same tree.",
@@ -789,61 +789,67 @@ func runITERDONE(c *Ctx) {
 		}
 		for _, b := range fn.Blocks {
 			for _, ins := range b.Instrs {
-				bin, ok := ins.(*ssa.BinOp)
-				if !ok || (bin.Op != token.EQL && bin.Op != token.NEQ) {
+				errV, g, viaIs := stopTest(ins)
+				if g == nil {
 					continue
 				}
-				var errV, sent ssa.Value
-				if isSentinel(bin.Y) {
-					errV, sent = bin.X, bin.Y
-				} else if isSentinel(bin.X) {
-					errV, sent = bin.Y, bin.X
-				} else {
-					continue
-				}
-				g := sent.(*ssa.UnOp).X.(*ssa.Global)
 				if sentinelHasProducer(c, g) {
 					continue // produced inside the repository (ErrNoMoreDiffs): CBPROP/ERRFLOW cover it
 				}
+				if !viaIs && testedWithIs(fn, errV, g) {
+					continue // `err == S || errors.Is(err, S)`: the errors.Is test is the one that decides
+				}
+				how := "`== " + g.Name() + "`"
+				if viaIs {
+					how = "`errors.Is(…, " + g.Name() + ")`"
+				}
 				// the error comes from a call that is handed one of fn's function-typed parameters
-				var call *ssa.Call
-				switch x := ir.Origin(errV).(type) {
-				case *ssa.Call:
-					call = x
-				case *ssa.Extract:
-					call, _ = x.Tuple.(*ssa.Call)
-				}
-				if call == nil {
-					continue
-				}
-				n++
-				bad := false
-				for _, callee := range c.Facts.Callees(call) {
-					for ai, a := range call.Call.Args {
-						if _, isFn := a.Type().Underlying().(*types.Signature); !isFn || ai >= len(callee.Params) {
-							continue
-						}
-						if w := wrapsCallbackError(c, callee, callee.Params[ai], map[*ssa.Function]bool{}); w != nil {
-							bad = true
-							c.Violation(w.Parent(), P.InstrPos(w), "callback error wrapped before a == comparison with "+g.Name(),
-								fmt.Sprintf("%s recognises the stop signal with `== %s`, but on the way from the user callback the error is wrapped here; the wrapped error is not equal to the sentinel, so stopping an iteration returns an error instead of nil (only when the callback stops inside this function's level)", ir.FuncName(fn), g.Name()))
+				for call := range stopErrSources(c, fn, errV) {
+					n++
+					bad := false
+					iterdoneViaIs, iterdoneUnknown = viaIs, nil
+					for _, callee := range c.Facts.Callees(call) {
+						for ai, a := range call.Call.Args {
+							if _, isFn := a.Type().Underlying().(*types.Signature); !isFn || ai >= len(callee.Params) {
+								continue
+							}
+							if w := wrapsCallbackError(c, callee, callee.Params[ai], map[*ssa.Function]bool{}); w != nil {
+								bad = true
+								if viaIs {
+									c.Violation(w.Parent(), P.InstrPos(w), "callback error wrapped without %w before an errors.Is test for "+g.Name(),
+										fmt.Sprintf("%s recognises the stop signal with %s, but on the way from the user callback the error is re-formatted here (not wrapped with %%w): errors.Is cannot unwrap the result to the sentinel, so stopping an iteration returns an error instead of nil", ir.FuncName(fn), how))
+								} else {
+									c.Violation(w.Parent(), P.InstrPos(w), "callback error wrapped before a == comparison with "+g.Name(),
+										fmt.Sprintf("%s recognises the stop signal with `== %s`, but on the way from the user callback the error is wrapped here; the wrapped error is not equal to the sentinel, so stopping an iteration returns an error instead of nil (only when the callback stops inside this function's level)", ir.FuncName(fn), g.Name()))
+								}
+							}
 						}
 					}
-				}
-				for call, ret := range swallowedAt {
-					bad = true
-					c.Violation(call.Parent(), P.InstrPos(ret), "stop signal swallowed below "+fn.Name(),
-						fmt.Sprintf("%s turns the callback's stop signal into a nil return; only %s may do that — the enclosing levels of the walk carry on with the remaining entries after the callback said stop", ir.FuncName(call.Parent()), ir.FuncName(fn)))
-				}
-				swallowedAt = map[*ssa.Call]*ssa.Return{}
-				if !bad {
-					c.OK(P.InstrPos(bin), fmt.Sprintf("%s compares with %s using ==", ir.FuncName(fn), g.Name()), "callback errors reach the comparison unwrapped and unswallowed", false)
+					for _, w := range iterdoneUnknown {
+						bad = true
+						c.Undecided(w.Parent(), P.InstrPos(w), "callback error wrapped before an errors.Is test for "+g.Name(),
+							fmt.Sprintf("%s recognises the stop signal with %s; whether this wrapping call keeps the callback's error reachable through Unwrap cannot be told (format not constant, or operands not a plain argument list)", ir.FuncName(fn), how))
+					}
+					iterdoneViaIs, iterdoneUnknown = false, nil
+					for call, ret := range swallowedAt {
+						bad = true
+						c.Violation(call.Parent(), P.InstrPos(ret), "stop signal swallowed below "+fn.Name(),
+							fmt.Sprintf("%s turns the callback's stop signal into a nil return; only %s may do that — the enclosing levels of the walk carry on with the remaining entries after the callback said stop", ir.FuncName(call.Parent()), ir.FuncName(fn)))
+					}
+					swallowedAt = map[*ssa.Call]*ssa.Return{}
+					if !bad {
+						if viaIs {
+							c.OK(P.InstrPos(ins), fmt.Sprintf("%s tests for %s using errors.Is", ir.FuncName(fn), g.Name()), "callback errors reach the test unwrapped or wrapped with %w only, and unswallowed", false)
+						} else {
+							c.OK(P.InstrPos(ins), fmt.Sprintf("%s compares with %s using ==", ir.FuncName(fn), g.Name()), "callback errors reach the comparison unwrapped and unswallowed", false)
+						}
+					}
 				}
 			}
 		}
 	}
 	if n == 0 {
-		c.OK("-", "no == comparison with a user-produced sentinel", "nothing to check (errors.Is tolerates wrapping)", true)
+		c.OK("-", "no ==/errors.Is test for a user-produced sentinel", "nothing to check", true)
 	}
 	// the walk must stop when the callback says so: what Iter/SeekIter hand down as the callback is the
 	// user's function itself, or a wrapper that returns a non-nil error whenever the user's function does
@@ -964,22 +970,7 @@ func wrapsCallbackError(c *Ctx, fn *ssa.Function, cb *ssa.Parameter, seen map[*s
 			swallowedAt[call] = ret
 		}
 	}
-	for _, r := range ir.Returns(fn) {
-		w, ok := r.Results[ei].(*ssa.Call)
-		if !ok || carriers[w] {
-			continue
-		}
-		if len(c.Facts.Callees(w)) > 0 {
-			continue
-		}
-		cl := operandClosure(w, func(v ssa.Value) bool { return carriers[v] })
-		for v := range carriers {
-			if cl[v] {
-				return w
-			}
-		}
-	}
-	return nil
+	return opaqueWrapReturned(c, fn, carriers, 0)
 }
 
 // ---- FINDOPTS --------------------------------------------------------------------------------------
